@@ -2,6 +2,7 @@ package ledger
 
 import (
 	"encoding/binary"
+	"fmt"
 	"math/big"
 	"sort"
 
@@ -410,8 +411,36 @@ func StandardObserver(epochMomentums int64) func(p *Projector, h uint64, ms stor
 	maxAdd := [2]*big.Int{new(big.Int), new(big.Int)}
 	var prev []Entry
 	havePrev := false
+	beneficiaries := map[string]bool{} // every address fused for so far (its counter must go back to zero when the fusions are cancelled)
 	return func(p *Projector, h uint64, ms store.Momentum, ev Event) {
 		entries := Liabilities(ms)
+		// the plasma an account can use is computed from a per-beneficiary counter kept next to the fusion entries: the two agree
+		fused := map[string]*big.Int{}
+		for _, e := range entries {
+			if e.Kind == "fusion" {
+				beneficiaries[e.Alt] = true
+				if fused[e.Alt] == nil {
+					fused[e.Alt] = new(big.Int)
+				}
+				fused[e.Alt].Add(fused[e.Alt], e.Amt)
+			}
+		}
+		bad := []string{}
+		for a := range beneficiaries {
+			addr, err := types.ParseAddress(a)
+			if err != nil {
+				continue
+			}
+			want := fused[a]
+			if want == nil {
+				want = new(big.Int)
+			}
+			if got, err := ms.GetStakeBeneficialAmount(addr); err != nil || got == nil || got.Cmp(want) != 0 {
+				bad = append(bad, fmt.Sprintf("%s: counter %v, entries %v", a, got, want))
+			}
+		}
+		sort.Strings(bad)
+		ev["fusebad"] = bad
 		if havePrev && p.LastRaw != nil {
 			ev["rel"], ev["app"] = EntryDiff(prev, entries, epochMomentums > 0)
 			ev["pays"] = ContractPays(p.LastRaw.Blocks, func(h uint64) int64 {
